@@ -95,7 +95,8 @@ async def async_connect(transport):
     """Connect to the serial port."""
     loop = asyncio.get_running_loop()
     try:
-        while True:
+        # Stop dialling when the gateway was stopped, like the threaded flavour.
+        while transport.protocol:
             _LOGGER.info("Trying to connect to %s", transport.gateway.port)
             try:
                 await serial_asyncio.create_serial_connection(
